@@ -187,4 +187,5 @@ def run_all(chk, fsets, tier):
     run_dispatch(chk, F)
     import rules_ivl
     rules_ivl.run_c06(chk, F, fsets[0], tier)
+    rules_ivl.run_golomb(chk, F, fsets[0], tier, "C06")
     chk.trust("rustc MIR/const evaluation, exporter, refcodes.py, the primitive contracts write_bits -> n and write_unary -> v+1 (verified on the writers by C01.W5)")
